@@ -220,7 +220,7 @@ def _doc_text(rng) -> Tuple[str, str]:
         return rng.choice(EXOTIC_DOCS), "exotic-values"
     elif r < 0.905:
         return '{"a": 1, "a": 2, "b": [{"a": 3, "a": 4}]}', "dup-keys"
-    elif r < 0.917:
+    elif r < 0.925:
         # larger than any single buffer or pipe: a tool that reads only the first block shows
         n = rng.choice((3000, 20000))
         v = {"a": list(range(n)), "b": ["x" * 50] * 200, "c": {"a": "tail-marker"}}
@@ -327,7 +327,7 @@ _ODD_CODEPOINTS = [chr(c) for c in range(0x80, 0x3100) if chr(c).isspace() or 0x
 
 def _fuzz_char(rng) -> str:
     r = rng.random()
-    if r < 0.6:
+    if r < 0.45:
         return rng.choice(FUZZ_CHARS)
     if r < 0.85:
         return rng.choice(_ODD_CODEPOINTS)
@@ -411,14 +411,15 @@ def gen_scenario(rng) -> Dict[str, Any]:
         cls = rng.choice(sorted(_ERR_QUERIES))
         qtext = rng.choice(_ERR_QUERIES[cls])
         qclass = f"compile:{cls}"
-    elif r < 0.86:
+    elif r < 0.83:
         qtext = rng.choice(EVAL_ERROR_QUERIES)
         qclass = "eval-error-candidate"
-    elif r < 0.9:
+    elif r < 0.86:
         # valid queries where a front end that is not exactly find() would differ
         qtext = rng.choice(SPECIAL_VALID_QUERIES)
         qclass = "special-valid"
     else:
+        # (14 % of the scenarios)
         qtext = fuzz_query(rng)
         qclass = "fuzzed"
     text, dkind = _doc_text(rng)
@@ -431,6 +432,8 @@ def gen_scenario(rng) -> Dict[str, Any]:
         qtext = rng.choice(("$.c", "$.a[0]", "$.a[-1]", "$.b[0]", "$..a", "$.a[1:3]", "$.*", "$.c.a", "$.a", "$.b", "$..c.a", "$.a[?@ == 2]", "$.a[::1000]"))
         qclass = "generated-cheap"
     fault = rng.choice(FAULTS)
+    if dkind.startswith("large") and rng.random() < 0.6:
+        fault = "none"  # large documents are mostly there to be processed, not to be broken
     doc_bytes = apply_fault(rng, text, fault)
     delivery = rng.choice(("-q", "--query=", "-r"))
     if "\x00" in qtext or qtext.startswith("-"):
